@@ -93,6 +93,22 @@ func c06Gen(r *RNG, id string, prop string) *Case {
 		c.Tag("wide-near-tie")
 	}
 	base := randSeq(r, w, symACGT, false)
+	skewed := prop == "C07" && c.Get("jit") == "" && r.Chance(1, 60)
+	if skewed {
+		// scale: more than 65 535 columns, more than 65 535 of them one base in every target (a count kept in 16 bits
+		// wraps), the other three bases present: tn93's frequencies come from these counts
+		w, nq, nt = r.Range(68000, 72000), r.Range(1, 2), r.Range(2, 3)
+		major := r.Pick(symACGT)
+		b := make([]byte, w)
+		for j := range b {
+			b[j] = major
+			if r.Chance(1, 60) {
+				b[j] = r.Pick(symACGT)
+			}
+		}
+		base = string(b)
+		c.Tag("one-base-more-than-65535-times")
+	}
 	var qs, ts []string
 	if wide {
 		// the query is unresolved over a tract: a target resolved there is more complete without being compared there.
@@ -195,6 +211,24 @@ func c06Gen(r *RNG, id string, prop string) *Case {
 	measure := r.PickStr([]string{"raw", "snp", "tn93"})
 	if wide {
 		measure = r.PickStr([]string{"raw", "raw", "snp"})
+	}
+	if skewed {
+		measure = "tn93"
+		// few differences: eq. 7 stays defined although three of the four frequencies are small
+		few := func() string {
+			b := []byte(base)
+			for k := r.Range(3, 12); k > 0; k-- {
+				j := r.Intn(w)
+				b[j] = r.Pick(strings.ReplaceAll(symACGT, string(b[j]), ""))
+			}
+			return string(b)
+		}
+		for i := range qs {
+			qs[i] = few()
+		}
+		for i := range ts {
+			ts[i] = few()
+		}
 	}
 	mode := r.PickStr([]string{"plain", "n", "n", "table"})
 	c.Set("measure", measure)
